@@ -30,8 +30,11 @@ var xSamples = []struct {
 	{"BE", xlatesample.BE}, {"Str", xlatesample.Str}, {"Switch", xlatesample.Switch}, {"SwitchRet", xlatesample.SwitchRet},
 	{"IfMerge", xlatesample.IfMerge}, {"Swap", xlatesample.Swap}, {"RangeSum", xlatesample.RangeSum}, {"RangeMinMax", xlatesample.RangeMinMax},
 	{"Count", xlatesample.Count}, {"CountRet", xlatesample.CountRet}, {"Struct", xlatesample.Struct}, {"Ret0", xlatesample.Ret0},
-	{"Collect", xlatesample.Collect}, {"Make", xlatesample.Make}, {"Search", xlatesample.Search}, {"Widen", xlatesample.Widen}, {"SortDesc", xlatesample.SortDesc}, {"StrOrder", xlatesample.StrOrder},
+	{"Collect", xlatesample.Collect}, {"Make", xlatesample.Make}, {"Search", xlatesample.Search}, {"Widen", xlatesample.Widen}, {"SortDesc", xlatesample.SortDesc}, {"StrOrder", xlatesample.StrOrder}, {"LoopCut", xlatesample.LoopCut},
 }
+
+// pure samples with a `for { }` loop take fuel
+var xSampleFuel = map[string]bool{"LoopCut": true}
 
 // boundary values of a parameter type
 func xGrid(t reflect.Type) []reflect.Value {
@@ -61,7 +64,7 @@ func xGrid(t reflect.Type) []reflect.Value {
 	case reflect.Slice:
 		switch t.Elem().Kind() {
 		case reflect.Uint8:
-			for _, v := range [][]byte{nil, {7}, {0, 7, 255}, {1, 2, 3, 4, 5}, {255, 254, 253, 252, 251, 250, 249, 248, 7, 1, 0}} {
+			for _, v := range [][]byte{nil, {7}, {0, 7, 255}, {1, 2, 3, 4, 5}, {255, 254, 253, 252, 251, 250, 249, 248, 7, 1, 0}, {2, 9, 3, 1, 1, 1, 5}, {1, 1, 1, 0, 4}, {3, 0, 7, 2, 8}} {
 				add(v)
 			}
 		case reflect.Int32:
@@ -268,7 +271,7 @@ func init() {
 		}
 		var units []xUnit
 		for _, s := range xSamples {
-			units = append(units, xUnit{Name: "tr_s_" + s.name, Dir: "xlatesample", Func: s.name})
+			units = append(units, xUnit{Name: "tr_s_" + s.name, Dir: "xlatesample", Func: s.name, Fuel: xSampleFuel[s.name]})
 		}
 		for _, s := range xRdSamples {
 			units = append(units, xUnit{Name: "tr_s_" + s.name, Dir: "xlatesample", Func: "R." + s.name, State: sampleReader, Fuel: s.fuel, Group: s.group})
@@ -302,7 +305,11 @@ func init() {
 				for _, v := range args {
 					as = append(as, xCoqVal(v))
 				}
-				ins = append(ins, "tr_s_"+s.name+" "+strings.Join(as, " "))
+				fuel := ""
+				if xSampleFuel[s.name] {
+					fuel = " 40"
+				}
+				ins = append(ins, "tr_s_"+s.name+fuel+" "+strings.Join(as, " "))
 				outs = append(outs, xCallSample(f, args))
 			}
 			total += n
